@@ -130,16 +130,39 @@ def to_coq(case):
 # ----------------------------------------------------------------------------
 # oracle
 # ----------------------------------------------------------------------------
+CLASSES = (("no maintenance although", "C19-not-prompt"),
+           ("not strictly less urgent", "C19-boosted-most-urgent"),
+           ("out of bounds", "C19-boost-out-of-bounds"),
+           ("LESS urgent", "C19-boost-less-urgent"),
+           ("did not consider", "C19-straggler-not-considered"),
+           ("ahead of a positional", "C19-regular-before-positional"))
+
+
+def classify(msg):
+    for key, sig in CLASSES:
+        if key in msg:
+            return sig
+    return None
+
+
 def oracle(case, ob):
-    return oracle_expanded(expand_case(case), ob)
+    """first failure; while a failing case is being shrunk (`only` set by shrink) the
+    first failure of that same class, so that a replay keeps showing what it was found for"""
+    fails = oracle_all(expand_case(case), ob)
+    only = case.get("only")
+    for m in fails:
+        if only is None or classify(m) == only:
+            return m
+    return None
 
 
-def oracle_expanded(case, ob):
+def oracle_all(case, ob):
     ops = case["ops"]
     f = fr(case["factor"])
     ndraws = len(case["draws"])
     if not isinstance(ob, list) or len(ob) != len(ops):
-        return f"runner failed: {ob!r}"[:300]
+        return [f"runner failed: {ob!r}"[:300]]
+    fails = []
     prev = {}            # obj -> (class, base, boost, seq)
     prev_lm = 0
     born = {}            # obj -> number of insertions that had happened when it was (re)queued
@@ -157,7 +180,8 @@ def oracle_expanded(case, ob):
             cur[e[5]] = (e[0], Fraction(*e[1]), Fraction(*e[2]), e[4])
         n = len(arr)
         if len(cur) != n:
-            return f"{where}: an object is queued twice"
+            fails.append(f"{where}: an object is queued twice")
+            return fails
         okres = res[0] == 0
         is_app = k in APPENDS and okres
         is_rem = k in ("popleft", "remove") and okres
@@ -167,46 +191,47 @@ def oracle_expanded(case, ob):
         # ---- popleft returns the most urgent entry; positional entries first
         if k == "popleft" and prev:
             if not okres:
-                return f"{where}: popleft failed on a non-empty queue"
-            o = res[1]
-            if o not in prev:
-                return f"{where}: popped {o} which was not queued"
-            best = min(prev.values(), key=lambda v: (v[0], v[1] + v[2], v[3]))
-            v = prev[o]
-            if v[0] != 0 and best[0] == 0:
-                return f"{where}: a regular entry ({o}) was popped ahead of a positional one"
-            if (v[0], v[1] + v[2], v[3]) != (best[0], best[1] + best[2], best[3]):
-                return f"{where}: popped {o} {v} although {best} is more urgent"
+                fails.append(f"{where}: popleft failed on a non-empty queue")
+            elif res[1] not in prev:
+                fails.append(f"{where}: popped {res[1]} which was not queued")
+            else:
+                o = res[1]
+                best = min(prev.values(), key=lambda v: (v[0], v[1] + v[2], v[3]))
+                v = prev[o]
+                if v[0] != 0 and best[0] == 0:
+                    fails.append(f"{where}: a regular entry ({o}) was popped ahead of a positional one")
+                elif (v[0], v[1] + v[2], v[3]) != (best[0], best[1] + best[2], best[3]):
+                    fails.append(f"{where}: popped {o} {v} although {best} is more urgent")
 
         # ---- who changed?
         if k in APPENDS or k in ("popleft", "remove"):
             if maint and not is_app:
-                return f"{where}: maintenance ran outside an insertion"
+                fails.append(f"{where}: maintenance ran outside an insertion")
             new_reg = []
             for o, v in cur.items():
                 pv = prev.get(o)
                 if pv is None or pv[3] != v[3]:
                     # new entry (append / insert / promoted by insert)
                     if v[2] != 0:
-                        return f"{where}: freshly queued entry {o} already carries a boost {v[2]}"
+                        fails.append(f"{where}: freshly queued entry {o} already carries a boost {v[2]}")
                     if v[0] != 0:
                         new_reg.append(o)
                     continue
                 if pv[0] != v[0] or pv[1] != v[1]:
-                    return f"{where}: class/base priority of queued entry {o} changed {pv} -> {v}"
+                    fails.append(f"{where}: class/base priority of queued entry {o} changed {pv} -> {v}")
             # the regular entries as maintenance saw them (old boosts)
             reg_before = {}
             for o, v in cur.items():
                 if v[0] == 0:
                     if v[2] != 0:
-                        return f"{where}: positional entry {o} has a boost {v[2]}"
+                        fails.append(f"{where}: positional entry {o} has a boost {v[2]}")
                     continue
                 pv = prev.get(o)
                 oldb = pv[2] if (pv is not None and pv[3] == v[3]) else Fraction(0)
                 reg_before[o] = (v[1] + oldb, oldb, v[2])
             changed = [o for o, (p, ob_, nb) in reg_before.items() if ob_ != nb]
             if changed and not maint:
-                return f"{where}: boost of {changed} changed although no maintenance ran"
+                fails.append(f"{where}: boost of {changed} changed although no maintenance ran")
             if maint and reg_before:
                 m = min(p for p, _, _ in reg_before.values())
                 nboost += len(changed)
@@ -214,22 +239,22 @@ def oracle_expanded(case, ob):
                     p, oldb, newb = reg_before[o]
                     base = cur[o][1]
                     if not p > m:
-                        return (f"{where}: maintenance boosted entry {o} (priority {p}) which is not strictly "
-                                f"less urgent than the most urgent regular entry (priority {m})")
-                    if not newb < oldb:
-                        return (f"{where}: maintenance made entry {o} LESS urgent: boost {oldb} -> {newb} "
-                                f"(priority {p} -> {base + newb})")
-                    if f > 0 and not (m - (f - 1) * (p - m) < base + newb):
-                        return (f"{where}: boost of entry {o} out of bounds: priority {p} -> {base + newb}, "
-                                f"most urgent regular {m}, factor {f}, bound {m - (f - 1) * (p - m)}")
+                        fails.append(f"{where}: maintenance boosted entry {o} (priority {p}) which is not strictly "
+                                     f"less urgent than the most urgent regular entry (priority {m})")
+                    elif not newb < oldb:
+                        fails.append(f"{where}: maintenance made entry {o} LESS urgent: boost {oldb} -> {newb} "
+                                     f"(priority {p} -> {base + newb})")
+                    elif f > 0 and not (m - (f - 1) * (p - m) < base + newb):
+                        fails.append(f"{where}: boost of entry {o} out of bounds: priority {p} -> {base + newb}, "
+                                     f"most urgent regular {m}, factor {f}, bound {m - (f - 1) * (p - m)}")
                 if f > 0 and nboost < ndraws:
                     for o, (p, oldb, newb) in reg_before.items():
                         if o in new_reg or o not in born:
                             continue
                         waited = n_app + 1 - born[o]
                         if p > m and waited > n and oldb == newb:
-                            return (f"{where}: maintenance ran but did not consider entry {o} (priority {p} > {m}) "
-                                    f"although it was passed over by {waited} insertions at queue length {n} {hist}")
+                            fails.append(f"{where}: maintenance ran but did not consider entry {o} (priority {p} > {m}) "
+                                         f"although it was passed over by {waited} insertions at queue length {n} {hist}")
 
         # ---- promptness: a bound in the queue length only
         win_max = max(win_max, n)
@@ -245,9 +270,12 @@ def oracle_expanded(case, ob):
                 win_max = n
                 win_start = step + 1
             elif win_a >= K and win_r >= K:
-                return (f"{where}: no maintenance although, since step {win_start}, the queue was never empty, never "
-                        f"longer than {win_max}, and {win_a} entries were added and {win_r} removed "
-                        f"(bound max(10,L)+1 = {K}) {hist}")
+                fails.append(f"{where}: no maintenance although, since step {win_start}, the queue was never empty, "
+                             f"never longer than {win_max}, and {win_a} entries were added and {win_r} removed "
+                             f"(bound max(10,L)+1 = {K}) {hist}")
+                win_a = win_r = 0          # reported once; start a new stretch
+                win_max = n
+                win_start = step + 1
         if n == 0 or (k == "insert" and op[1] > 0):
             if n == 0 and prev:
                 drains += 1
@@ -260,18 +288,14 @@ def oracle_expanded(case, ob):
             born[op[1]] = n_app
         elif k == "resched" and okres and res[1] != []:
             born[op[1]] = n_app
-        elif k in ("resched_all", "clear", "insert"):
-            for o in list(born):
-                if o not in cur or cur[o][0] == 0:
-                    del born[o]
-            if k == "resched_all":
-                pass      # entries keep their PriorityValue (and inserted_at)
         for o in list(born):
-            if o not in cur:
+            if o not in cur or cur[o][0] == 0:
                 del born[o]
         prev = cur
         prev_lm = lm
-    return None
+        if len(fails) > 40:
+            break
+    return fails
 
 
 # ----------------------------------------------------------------------------
@@ -361,10 +385,6 @@ class Builder:
         return s
 
 
-def draws_for(pattern, n):
-    return [pattern[i % len(pattern)] for i in range(n)]
-
-
 def mk_case(b: Builder, factor, pattern, ndraws=64, **meta):
     codes = [code_of(op) for op in b.ops]
     case = {"factor": list(factor), "pat": [list(d) for d in pattern], "nd": ndraws,
@@ -381,10 +401,10 @@ def gen(rng: random.Random, tier: str):
     quick = tier == "quick"
     # ---- bounded-exhaustive structured scope
     hist = ((0, 1), (3, 1), (13, 1), (13, 2)) if quick else (
-        (0, 1), (1, 1), (3, 1), (11, 1), (12, 1), (13, 1), (13, 2), (30, 1), (30, 3), (64, 2))
-    Ls = (1, 2, 3, 5) if quick else (1, 2, 3, 4, 5, 8, 11, 12)
-    facs = (FACTORS[0], FACTORS[2]) if quick else FACTORS[:4]
-    pats = DRAW_PATTERNS[:2] if quick else DRAW_PATTERNS[:4]
+        (0, 1), (1, 1), (3, 1), (11, 1), (12, 1), (13, 2), (30, 1), (30, 3))
+    Ls = (1, 2, 3, 5) if quick else (1, 2, 3, 5, 8, 12)
+    facs = (FACTORS[0], FACTORS[2]) if quick else FACTORS[:3]
+    pats = DRAW_PATTERNS[:2] if quick else DRAW_PATTERNS[1:3]
     for fac in facs:
         for pi, pat0 in enumerate(pats if not quick else pats[:1]):
             for N, periods in hist:
@@ -404,7 +424,7 @@ def gen(rng: random.Random, tier: str):
                             yield mk_case(b, fac, pat, 48, N=N, periods=periods, L=L, posmode=posmode,
                                           order=order)
     # ---- random histories
-    nrand = 1020 if quick else 5000
+    nrand = 1020 if quick else 1500
     for i in range(nrand):
         b = Builder()
         fac = rng.choice(FACTORS)
@@ -412,8 +432,8 @@ def gen(rng: random.Random, tier: str):
         nper = rng.choice([0, 0, 1, 1, 2] if quick else [0, 1, 1, 2, 3])
         total = 0
         for _ in range(nper):
-            N = rng.choice([0, 1, 5, 12, 13] if quick else [0, 1, 12, 40, 150, 400, 900])
-            if total + N > (14 if quick else 1500):
+            N = rng.choice([0, 1, 5, 12, 13] if quick else [0, 1, 12, 40, 150, 400])
+            if total + N > (14 if quick else 400):
                 N = 2
             total += N
             w = rng.choice([1, 1, 2, 2, 3] if quick else [1, 2, 2, 3, 6])
@@ -439,7 +459,7 @@ def gen(rng: random.Random, tier: str):
         yield mk_case(b, fac, pat, 64, L=L, kind="random")
     # ---- long queues (lengths up to 200) after a history with drains
     big = [(40, 1), (200, 0)] if quick else [
-        (50, 1), (64, 2), (100, 1), (128, 3), (150, 0), (200, 1), (200, 0), (200, 2)]
+        (50, 1), (100, 1), (150, 0), (200, 1), (200, 0)]
     for L, posmode in big:
         b = Builder()
         b.busy(2, rng.choice([15, 33]), "pa")
@@ -473,9 +493,16 @@ def nontrivial(case, ob):
 
 def shrink(case):
     segs = case["segs"]
+    only = case.get("only")
+    if only is None:
+        # keep the class of the failure this case was reported for
+        m = oracle(case, impl(case))
+        only = classify(m) if m else None
 
     def variant(new):
         c = dict(case)
+        if only is not None:
+            c["only"] = only
         c["segs"] = [sg for sg in new if sg[0] > 0 and sg[1]]
         return c
     for i in range(len(segs)):
@@ -489,7 +516,7 @@ def shrink(case):
             for j in range(len(blk)):
                 yield variant(segs[:i] + [[1, blk[:j] + blk[j + 1:]]] + segs[i + 1:])
     if case["nd"] > 4:
-        c = dict(case); c["nd"] = case["nd"] // 2
+        c = variant(segs); c["nd"] = case["nd"] // 2
         yield c
 
 
@@ -502,15 +529,7 @@ def describe(case):
 def signature(stream, case, msg):
     """failure classes (one report per class); none of them is a known finding once
     fixes/F11-boost.patch is applied"""
-    for key, sig in (("no maintenance although", "C19-not-prompt"),
-                     ("not strictly less urgent", "C19-boosted-most-urgent"),
-                     ("out of bounds", "C19-boost-out-of-bounds"),
-                     ("LESS urgent", "C19-boost-less-urgent"),
-                     ("did not consider", "C19-straggler-not-considered"),
-                     ("ahead of a positional", "C19-regular-before-positional")):
-        if key in msg:
-            return sig
-    return None
+    return classify(msg)
 
 
 PROP = Prop(
@@ -525,12 +544,13 @@ PROP = Prop(
                gen=gen, impl=impl, to_coq=to_coq, oracle=oracle, nontrivial=nontrivial,
                shrink=shrink, describe=describe, corr_name="PosPriorityQueue-boosting"),
     ],
-    rule="structured histories: 0..3 busy periods (width 1..6, 0..N pop/append pairs in either order, drained to "
-         "empty, optionally a failing popleft) then a straggler with L-1 more urgent entries and up to "
-         "L+1+2(max(10,L)+1) rounds of popleft+append, optionally with positional entries inserted at the head "
-         "before the append; bounded-exhaustive over (factor, draw pattern, N, periods, L, positional mode, "
-         "order) first, then random, then queue lengths 50..200; dyadic factor and draws; a case is non-trivial "
-         "when a maintenance run was observed (and a boost, or >= 20 operations)",
+    rule="structured histories: 0..3 busy periods (width 1..6, 0..N pop/append rounds in either order, drained to "
+         "empty, optionally a failing popleft) then a straggler with L-1 more urgent entries and K+1..L+1+2K rounds "
+         "(K = max(10,L)+1) of popleft+append in either order, optionally with one or two positional entries "
+         "inserted at the head before the append and popped afterwards; bounded-exhaustive over (factor, history, "
+         "L, positional mode, order) first, then random, then queue lengths 40..200; dyadic factor and draws, "
+         "integer priorities; a case is non-trivial when a maintenance run was observed (and a boost, or >= 20 "
+         "operations); distinct = distinct canonical JSON of the compact case",
     signature=signature,
     assumptions=["float arithmetic is modelled by exact rationals: the correspondence only uses dyadic factors, "
                  "draws and integer priorities for which every float operation is exact",
